@@ -188,13 +188,17 @@ Section Model.
     let cols := transpose (vmap (renorm S) m) in
     vdiff S (rescale S (mag2 S (vx cols)) (vy cols)) (rescale S (scal S (vx cols) (vy cols)) (vx cols)).
 
-  Definition adjust_raw (m : M3 T) : M3 T :=
+  (* the three new columns, before the 1e-10 clip *)
+  Definition adjust_cols (m : M3 T) : M3 T :=
     let cols := transpose (vmap (renorm S) m) in
     let c1' := renorm S (adj_c1pre m) in
     let c0' := renorm S (vx cols) in
     let vp := renorm S (vect S c0' c1') in
     let c2' := if sltb S 0! (scal S vp (vz cols)) then vp else rescale S (-! 1!) vp in
-    transpose (vmap (vmap clip) (mkV c0' c1' c2')).
+    mkV c0' c1' c2'.
+
+  Definition adjust_raw (m : M3 T) : M3 T :=
+    transpose (vmap (vmap clip) (adjust_cols m)).
 
   (* the places where Python would raise ZeroDivisionError *)
   Definition adjust_divzero (m : M3 T) : bool :=
